@@ -182,12 +182,15 @@ func (d *deepCopier) deepCopyStruct(in, out reflect.Value) {
 		ifld := in.Type().Field(i)
 		f := in.Field(i)
 		of := out.Field(i)
-		if !token.IsExported(ifld.Name) {
+		if !token.IsExported(ifld.Name) && !(ifld.Anonymous && f.Kind() == reflect.Struct) {
 			// The field is not exported, and Go's reflect package
 			// goes to great lengths to consider values from such
 			// fields poisoned. Don't try to bypass it, since we're
 			// dealing with config structs which are assembled from
 			// different sources, not general-purpose values.
+			// (An embedded struct of an unexported type is descended
+			// into: its exported fields are promoted, settable, and
+			// part of the config.)
 			continue
 		}
 		d.deepCopy(f, of)
